@@ -575,11 +575,13 @@ class _ChunkWorld(World):
 
   def compare(self, it, op, a, b, node):
     if a == S('uniq') and b == 0 and isinstance(op, (ast.Lt, ast.GtE)):
-      neg = Arr(int(not k) for _, k in self.layout)
-      return neg if isinstance(op, ast.Lt) else Arr(1 - x for x in neg.xs)
+      neg = Arr((int(not k) for _, k in self.layout), mask=True)
+      return neg if isinstance(op, ast.Lt) else Arr((1 - x for x in neg.xs),
+                                                    mask=True)
     if a == S('uniq') and b == -1 and isinstance(op, (ast.LtE, ast.Gt)):
-      neg = Arr(int(not k) for _, k in self.layout)
-      return neg if isinstance(op, ast.LtE) else Arr(1 - x for x in neg.xs)
+      neg = Arr((int(not k) for _, k in self.layout), mask=True)
+      return neg if isinstance(op, ast.LtE) else Arr((1 - x for x in neg.xs),
+                                                     mask=True)
     if a == S('lookup') and isinstance(b, int) and \
             isinstance(op, (ast.Eq, ast.NotEq)):
       return S('cmask', b, isinstance(op, ast.Eq))
